@@ -83,6 +83,7 @@ static inline void crumb(const char *props, const char *op, const std::string &d
   memcpy(c_detail, detail.data(), n);
   c_detail[n] = 0;
 }
+static char extra_props_c[32] = "";
 static volatile sig_atomic_t crumb_written = 0;
 static inline void write_crumb(const char *why) {
   if (crumb_written)
@@ -90,7 +91,7 @@ static inline void write_crumb(const char *why) {
   crumb_written = 1;
   flush();
   char t[700];
-  int n = snprintf(t, sizeof t, "C\t%s\t%s\t%s\t%s\n", why, c_props, c_op, c_detail);
+  int n = snprintf(t, sizeof t, "C\t%s\t%s%s\t%s\t%s\n", why, c_props, extra_props_c, c_op, c_detail);
   if (n > 0)
     (void)!write(fd, t, (size_t)std::min(n, (int)sizeof t));
 }
@@ -125,11 +126,12 @@ static inline void dump_counters() {
     line("S\t" + kv.first + "\t" + std::to_string(kv.second));
 }
 static long n_viol = 0;
+static std::string extra_props; // properties every wrong answer also violates because of the object state (",C06" loaded, ",C08" re-saved)
 static inline void violation(const char *props, const std::string &op, const std::string &fclass,
                              const std::string &iclass, const std::string &detail) {
   n_viol++;
   if (n_viol <= 40)
-    line(std::string("V\t") + props + "\t" + op + "\t" + fclass + "\t" + iclass + "\t" + detail);
+    line(std::string("V\t") + props + extra_props + "\t" + op + "\t" + fclass + "\t" + iclass + "\t" + detail);
 }
 } // namespace obs
 
